@@ -156,6 +156,41 @@ def random_particles(rng, n, mix='random', biodeg=False, lag_time=None):
     return specs
 
 
+STRIP_GASES = ['oxygen', 'nitrogen', 'carbon_dioxide']
+
+
+def add_zero_fraction(rng, specs, n_extra=1, p_zero_existing=0.3):
+    """the standard tamoc set-up of particles that STRIP dissolved gases from the water: the shared composition of the
+    soluble particles gets `n_extra` more compounds (oxygen, nitrogen, carbon dioxide) that every particle lists with
+    mole fraction EXACTLY 0 at the release, and with probability `p_zero_existing` one of the original compounds of a
+    particle is set to mole fraction 0 as well (the others renormalised).  Modifies the specs in place; returns the
+    list of compounds that some particle holds with zero mass."""
+    sol = [sp for sp in specs if sp['kind'] != 'inert']
+    if not sol:
+        return []
+    comp = list(sol[0]['composition'])
+    extra = [g for g in STRIP_GASES if g not in comp]
+    rng.shuffle(extra)
+    extra = extra[:n_extra]
+    zero = list(extra)
+    for sp in sol:
+        yk = list(sp['yk'])
+        if len(yk) > 1 and rng.random() < p_zero_existing:
+            j = rng.randrange(len(yk))
+            if sum(y for i, y in enumerate(yk) if i != j) > 0:
+                yk[j] = 0.
+                tot = sum(yk)
+                yk = [y / tot for y in yk]
+                if comp[j] not in zero:
+                    zero.append(comp[j])
+        sp['composition'] = comp + extra
+        sp['yk'] = yk + [0.] * len(extra)
+        if sp.get('k_bio') is not None:
+            sp['k_bio'] = list(sp['k_bio']) + [0.] * len(extra)
+            sp['t_bio'] = list(sp['t_bio']) + [0.] * len(extra)
+    return zero
+
+
 def build_dbm(sp):
     from tamoc import dbm
     if sp['kind'] == 'inert':
